@@ -145,7 +145,7 @@ pub fn generate_tree_run<M: Machine>(verif_seed: u64, sched: u64, data_no: u64) 
         isolated: sched % 16 == 0,
         tapes,
         events,
-        knobs: json!({"k": k, "tree": tree_shape(tree), "variant": if variant == 0 { "plain".to_string() } else if let Some(l) = empty_leaf { format!("empty chunk at leaf {l}") } else { format!("empty operand after node {}", empty_node.unwrap()) }, "family": FAMILY_NAMES[family as usize % 14], "chunk_lens": lens}),
+        knobs: json!({"k": k, "tree": tree_shape(tree), "variant": if variant == 0 { "plain".to_string() } else if let Some(l) = empty_leaf { format!("empty chunk at leaf {l}") } else { format!("empty operand after node {}", empty_node.unwrap()) }, "family": FAMILY_NAMES[family as usize % FAMILY_NAMES.len()], "chunk_lens": lens}),
         violation: None,
         extra: Value::Null,
     }
@@ -159,7 +159,7 @@ pub fn generate_long_run<M: Machine>(verif_seed: u64, run: u64, max_pow10: u32) 
     // 10^5 .. 10^max
     let exp = 5.0 + r.unit() * (max_pow10 as f64 - 5.0);
     let n = 10f64.powf(exp) as u32;
-    let mut family = *r.pick(&[0u8, 5, 8, 6, 7, 9, 1, 3, FAM_ALTERNATING, FAM_ALTERNATING]);
+    let mut family = *r.pick(&[0u8, 5, 8, 6, 7, 9, 1, 3, FAM_ALTERNATING, FAM_ALTERNATING, FAM_INT_BEYOND_MANTISSA]);
     if M::FAMILY == Family::Sum && r.chance(0.5) {
         family = *r.pick(&[FAM_TINY, FAM_HUGE, FAM_VANISHING, FAM_VANISHING, FAM_NEAR_UNDERFLOW, FAM_NEAR_UNDERFLOW]);
     }
@@ -215,7 +215,7 @@ pub fn generate_long_run<M: Machine>(verif_seed: u64, run: u64, max_pow10: u32) 
         isolated: false,
         tapes,
         events,
-        knobs: json!({"n": n, "chunks": chunks, "family": FAMILY_NAMES[family as usize % 14], "workers": workers, "styles": style_pool.iter().map(|&s| M::style_name(s)).collect::<Vec<_>>(), "reduce": (["a+b", "b+a (accumulated on the right)", "a+=b"][policy as usize])}),
+        knobs: json!({"n": n, "chunks": chunks, "family": FAMILY_NAMES[family as usize % FAMILY_NAMES.len()], "workers": workers, "styles": style_pool.iter().map(|&s| M::style_name(s)).collect::<Vec<_>>(), "reduce": (["a+b", "b+a (accumulated on the right)", "a+=b"][policy as usize])}),
         violation: None,
         extra: Value::Null,
     }
@@ -284,7 +284,7 @@ pub fn generate_long_c09<M: Machine>(verif_seed: u64, run: u64) -> Trace {
         isolated: true,
         tapes,
         events,
-        knobs: json!({"n": [n, n1], "family": FAMILY_NAMES[family as usize % 14], "workers": workers}),
+        knobs: json!({"n": [n, n1], "family": FAMILY_NAMES[family as usize % FAMILY_NAMES.len()], "workers": workers}),
         violation: None,
         extra: Value::Null,
     }
